@@ -248,3 +248,7 @@ func SortedKeys[V any](m map[string]V) []string {
 	sort.Strings(ks)
 	return ks
 }
+
+// EndPlan is the value a harness panics with, on the plan's root goroutine, to end
+// a plan where it stands: everything recorded so far is the plan's result.
+type EndPlan struct{ Why string }
